@@ -83,6 +83,18 @@ def step_times(spec):
     return out
 
 
+def end_times(spec):
+    """[(YYYYJJJ, hour)] end of each step.  With spec['eod24'] an end at
+    midnight is written the CAMx way: hour 24 of the day that ends."""
+    out = []
+    for d, h in step_times(spec)[1:]:
+        if spec.get('eod24') and h == 0:
+            d = gen_ioapi.jd_add(d, 0, -86400)[0]
+            h = 24
+        out.append((d, h))
+    return out
+
+
 def field(spec, vi, shape):
     """distinct non-zero float32 payloads, optionally with hostile values"""
     rng = np.random.default_rng([int(spec['seed']), 1000 + vi])
@@ -109,7 +121,7 @@ def content(spec):
     nx, ny, nz, nt = spec['nx'], spec['ny'], spec['nz'], spec['nt']
     st = step_times(spec)
     tflag = [(d, h * 10000) for d, h in st[:-1]]
-    etflag = [(d, h * 10000) for d, h in st[1:]]
+    etflag = [(d, h * 10000) for d, h in end_times(spec)]
     c = {'vars': {}, 'tflag': tflag, 'etflag': None,
          'dims': {'TSTEP': nt, 'LAY': nz, 'ROW': ny, 'COL': nx}}
     if fmt == 'uamiv':
@@ -205,7 +217,7 @@ def aq_header(spec, c):
     nspec = len(spec['names'])
     r1 = a4(h['name'], 10) + a4(h['note'], 60) + struct.pack(
         '>iiifif', h['itzon'], nspec, yyjjj(st[0][0]), float(st[0][1]),
-        yyjjj(st[-1][0]), float(st[-1][1]))
+        yyjjj(end_times(spec)[-1][0]), float(end_times(spec)[-1][1]))
     r2 = struct.pack('>ffiffffiiiiifff', h['plon'], h['plat'], h['iutm'],
                      h['xorg'], h['yorg'], h['delx'], h['dely'], spec['nx'],
                      spec['ny'], spec['nz'], h['iproj'], h['istag'],
@@ -220,13 +232,14 @@ def encode(spec):
     c = content(spec)
     nx, ny, nz, nt = spec['nx'], spec['ny'], spec['nz'], spec['nt']
     st = step_times(spec)
+    et = end_times(spec)
     out = []
     if fmt == 'uamiv':
         out.append(aq_header(spec, c))
         for t in range(nt):
             out.append(rec(struct.pack('>ifif', yyjjj(st[t][0]),
-                                       float(st[t][1]), yyjjj(st[t + 1][0]),
-                                       float(st[t + 1][1]))))
+                                       float(st[t][1]), yyjjj(et[t][0]),
+                                       float(et[t][1]))))
             for nm in spec['names']:
                 for k in range(nz):
                     out.append(rec(struct.pack('>i', 1) + a4(nm, 10) +
@@ -241,8 +254,8 @@ def encode(spec):
             out.append(rec(body))
         for t in range(nt):
             out.append(rec(struct.pack('>ifif', yyjjj(st[t][0]),
-                                       float(st[t][1]), yyjjj(st[t + 1][0]),
-                                       float(st[t + 1][1]))))
+                                       float(st[t][1]), yyjjj(et[t][0]),
+                                       float(et[t][1]))))
             for nm in spec['names']:
                 for iedge, edge in enumerate(('WEST', 'EAST', 'SOUTH',
                                               'NORTH'), 1):
